@@ -311,9 +311,22 @@ def _omen_marker(ctx, rule):
     from . import c15
     return c15.r4_omen_exit_writers(ctx, rule)
 
+def _shared_rule(mod, name, **kw):
+    def run(ctx, rule):
+        import importlib
+        return getattr(importlib.import_module('sa.props.' + mod), name)(ctx, rule, **kw)
+    return run
+
+
 def rules(tier):
     return [('C12.R1', r1_no_liveness_exit), ('C12.R2', r2_quit_flag_writers), ('C12.R3', r3_quit_points),
-            ('C12.R4', r4_thread_write_set), ('C12.R5', r5_thread_stdout), ('C12.R6', _omen_quit_order), ('C12.R7', r7_stdin_only_in_helper_thread), ('C12.R8', _saved_position_exact), ('C12.R9', _omen_marker)]
+            ('C12.R4', r4_thread_write_set), ('C12.R5', r5_thread_stdout), ('C12.R6', _omen_quit_order), ('C12.R7', r7_stdin_only_in_helper_thread), ('C12.R8', _saved_position_exact), ('C12.R9', _omen_marker),
+            # C12-cb: load_session reads cur_len, cur_ip in the other order than save_session writes them
+            ('C12.R10', _shared_rule('c15', 'r3_pickle_layout')),
+            # C12-ca: skip_case restored from the skip_brute key
+            ('C12.R11', _shared_rule('c08', 'r11_restore_is_verbatim')),
+            # C09-ca: leaving with os._exit because the stdin thread is still blocked loses buffered guesses
+            ('C12.R12', _shared_rule('plumbing', 'no_unflushed_exit'))]
 
 
 META = {
